@@ -314,7 +314,7 @@ def _post_shapes(cx, spec):
     import random
     from . import rng as rng_mod
     p = cx.p
-    if not any(p.get(k, 0) > 0 for k in ("p_empty_routing", "p_routing_shorthand", "p_keyword_update_field", "p_struct_fields")):
+    if not any(p.get(k, 0) > 0 for k in ("p_empty_routing", "p_routing_shorthand", "p_keyword_update_field", "p_struct_fields", "p_mixin_mixed_body")):
         return
     prng = random.Random(int(rng_mod.digest(spec)[:16], 16))
     methods = [(fs, s, m) for fs, s, m in all_methods(spec)]
@@ -358,6 +358,22 @@ def _post_shapes(cx, spec):
             m, req = prng.choice(cands)
             req["fields"].append({"name": "rows", "number": 15, "type": "message", "type_name": ".google.protobuf.Struct", "repeated": True})
             m["signatures"][0] = m["signatures"][0] + ",rows"
+    if prng.random() < p.get("p_mixin_mixed_body", 0):
+        # a mixin http rule whose bindings do not agree on `body` (one carries "*", another none: its fields travel in the query)
+        rules = [r for r in ((spec.get("service_yaml") or {}).get("http") or {}).get("rules", [])
+                 if r["selector"].startswith(("google.longrunning.", "google.iam.v1.", "google.cloud.location.")) and r.get("body") == "*"]
+        if rules:
+            r = prng.choice(rules)
+            verb = next(k for k in r if k in ("get", "post", "delete"))
+            abs_ = r.setdefault("additional_bindings", [])
+            other = next((a for a in abs_ if "organizations/*" in a[verb]), None)
+            if other is None:
+                other = {verb: r[verb].replace("projects/*", "organizations/*"), "body": "*"}
+                abs_.append(other)
+            if prng.random() < 0.5:
+                other.pop("body", None)
+            else:
+                del r["body"]
     if prng.random() < p.get("p_routing_shorthand", 0):
         # `{key}` without `=`: shorthand for `{key=*}`
         cands = [m for fs, s, m in methods if m.get("routing")]
